@@ -1,5 +1,5 @@
 #!/bin/bash
-# tools/preserving.sh [tier [patch ...]] — every patch under /verif/preserving keeps all properties; the existing suite and ALL 20
+# [CHECKS="C03 C10"] tools/preserving.sh [tier [patch ...]] — every patch under /verif/preserving keeps all properties; the existing suite and ALL 20
 # checks must pass on each of them (no VIOLATION, exit 0).  Runs in scratch worktrees; /repo is untouched.
 cd /verif
 TIER=${1:-quick}
@@ -19,7 +19,7 @@ for p in $LIST; do
   git -C $WT apply /verif/$p || { echo "$p: does not apply"; rc=1; }
   (cd $WT && go test -vet=off -count=1 . >/dev/null 2>&1) || { echo "$p: existing suite FAILS"; rc=1; }
   except=$(grep -m1 '^# except:' /verif/$p | sed 's/^# except: *//; s/(.*//')
-  for id in C01 C02 C03 C04 C05 C06 C07 C08 C09 C10 C11 C12 C13 C14 C15 C16 C17 C18 C19 C20; do
+  for id in ${CHECKS:-C01 C02 C03 C04 C05 C06 C07 C08 C09 C10 C11 C12 C13 C14 C15 C16 C17 C18 C19 C20}; do
     case " $except " in *" $id "*) echo "$p: $id skipped (listed as excepted in the patch header)"; continue ;; esac
     out=$(VERIF_REPO=$WT VERIF_BUILD=$WT.build VERIF_NO_EVIDENCE=1 timeout 1800 ./check $id --tier $TIER 2>/dev/null); e=$?
     if [ $e -ne 0 ] || echo "$out" | grep -q "^VIOLATION"; then echo "$p: check $id exit=$e :: $(echo "$out" | grep -E 'VIOLATION|INTERNAL' | head -2 | cut -c1-250)"; rc=1; fi
